@@ -17,25 +17,12 @@ theorem dominates_iff (x y : List Int) (hl : x.length = y.length) :
   rw [dominates_eq_true_iff, anyGreater_eq_false_iff x y hl, anyLess_eq_true_iff x y hl]
 
 /-- irreflexive (any length) -/
-theorem dominates_irrefl (x : List Int) : dominates x x = false := by
-  simp [dominates, anyGreater_self, anyLess_self]
+theorem dominates_irrefl (x : List Int) : dominates x x = false := dominates_irrefl' x
 
 /-- transitive -/
 theorem dominates_trans (x y z : List Int) (hxy : x.length = y.length) (hyz : y.length = z.length)
-    (h1 : dominates x y = true) (h2 : dominates y z = true) : dominates x z = true := by
-  have hxz : x.length = z.length := hxy.trans hyz
-  rw [dominates_iff x y hxy] at h1
-  rw [dominates_iff y z hyz] at h2
-  rw [dominates_iff x z hxz]
-  obtain ⟨a1, i, hix, hiy, hlt⟩ := h1
-  obtain ⟨a2, _⟩ := h2
-  refine ⟨?_, i, hix, by omega, ?_⟩
-  · intro j hx hz
-    have := a1 j hx (by omega)
-    have := a2 j (by omega) hz
-    omega
-  · have := a2 i hiy (by omega)
-    omega
+    (h1 : dominates x y = true) (h2 : dominates y z = true) : dominates x z = true :=
+  dominates_trans' x y z hxy hyz h1 h2
 
 /-- asymmetric -/
 theorem dominates_asymm (x y : List Int) (hl : x.length = y.length)
